@@ -156,9 +156,29 @@ Definition psem_open (t : fdt) (k : nat) (name : bytes) : nat + N :=
     match open1 PFS k name with inl c => inl (PB + c)%nat | inr e => inr e end
   else inr ENOTDIR.
 
+Inductive sresp := SNew (o : nat) | SRet (r : resp) | SClose (fd : Z).
+
+(* an ordinary (not O_PATH) read-only open of ONE component that is not followed and creates
+   nothing -- what mkdir_all (O_DIRECTORY|O_NOFOLLOW) and remove_all (the same, and the
+   re-open of "." with the descriptor's own flags) ask for; directories and regular files *)
+Definition ord_open (d : nat) (path : bytes) (flags : N) : sresp :=
+  if has flags O_PATH || has flags O_CREAT || intersects flags O_ACCMODE || has flags O_TRUNC
+     || negb (has flags O_NOFOLLOW || is_dot path)
+     || has_slash path || has_nul path || is_nil path || Nat.leb PB d
+  then SRet (RErr ENOSYS)
+  else match sem_open d path with
+       | inr e => SRet (RErr e)
+       | inl o =>
+           match FSModel.kind_of s o with
+           | FSModel.KDir => SNew o
+           | FSModel.KReg => if has flags O_DIRECTORY then SRet (RErr ENOTDIR) else SNew o
+           | FSModel.KLnk _ => SRet (RErr (if has flags O_DIRECTORY then ENOTDIR else ELOOP))
+           | _ => if has flags O_DIRECTORY then SRet (RErr ENOTDIR) else SRet (RErr ENOSYS)
+           end
+       end.
+
 (* what the kernel does for one call: allocate a descriptor for an object,
    answer, or release a descriptor.  ENOSYS marks "outside this model". *)
-Inductive sresp := SNew (o : nat) | SRet (r : resp) | SClose (fd : Z).
 
 Definition sem (t : fdt) (c : call) : sresp :=
   match c with
@@ -177,7 +197,7 @@ Definition sem (t : fdt) (c : call) : sresp :=
             | None => SRet (RErr ENOENT)
             end
           else
-          if negb (opath_nofollow flags) || has_slash path || has_nul path then SRet (RErr ENOSYS)
+          if negb (opath_nofollow flags) || has_slash path || has_nul path then ord_open d path flags
           else match (if Nat.leb PB d then psem_open t (d - PB) path else sem_open d path) with
                | inl o => if has flags O_DIRECTORY && negb (obj_is_dir o) then SRet (RErr ENOTDIR) else SNew o
                | inr e => SRet (RErr e)
